@@ -26,7 +26,14 @@ Tie + search (this file), on the real code:
     `_chunks` setter) with READS of keys / Frisky keys / graph / name / chunks before and after them: the advertised
     keys must be `(name, *block)` and produced by the graph, scheduling the graph for them must give the values,
     the same program without the reads must give the same collection, and pickles taken after
-    read -> update and update -> read must round-trip (Props/C07Inplace.lean is the model of this clause).
+    read -> update and update -> read must round-trip (Props/C07Inplace.lean is the model of this clause);
+  * (props_ext/c07_sources.py, in every run) ARRAY-VALUED parameters: every distribution of the random API with NumPy-array /
+    list / NumPy-scalar parameters in every layout, and NumPy / list operands of ordinary API calls: they tokenize by value
+    (dask.tokenize is the oracle), so names and optimized graph keys must be equal between builds and processes;
+  * (props_ext/c07_history.py, in every run) the program built after the SAME (or a larger) program was built and
+    materialized under ANOTHER configuration and kept alive: for every lazily read option (enumerated from the source),
+    names and optimized graph keys must equal those of a build from clean registries and of a fresh process under the
+    same configuration.
 """
 from __future__ import annotations
 
@@ -45,6 +52,7 @@ import numpy as np
 
 from harness import core, programs
 from harness.props import C06 as N
+from harness.props_ext import c07_history as H
 from harness.props_ext import c07_sources as S
 
 
@@ -235,12 +243,18 @@ def observe(x, compute=True, deep=False):
         "name": x.name,
         "dask_keys": h(flat_keys(x)),
         "chunks": N.canon_chunks(x.chunks),
-        "dtype": str(x.dtype),
     }
+    try:
+        out["dtype"] = str(x.dtype)
+    except Exception as e:
+        # known C23 family: the `_meta` of a generic Random node with a non-scalar NumPy parameter raises
+        out["dtype"] = "err " + type(e).__name__
     try:
         out["frisky"] = h(list(x.__frisky_output_keys__()))
     except NotImplementedError:
         out["frisky"] = "n/a"
+    except Exception as e:
+        out["frisky"] = "err " + type(e).__name__  # (same family: the Frisky support test looks at `_meta`)
     try:
         gk = sorted(map(str, x.__dask_graph__().keys()))
         out["graph_keys"] = h(gk)
@@ -287,6 +301,11 @@ out = {{}}
 for it in req["items"]:
     r = {{}}
     try:
+        if it.get("hist"):
+            # configuration-history stream: the program built under the case's configuration, nothing else was ever built here
+            r["hist_built"] = C07.H.child_build(it)
+            out[str(it["id"])] = r
+            continue
         dp = C07.deep(it["prog"])
         if not it.get("cfg"):
             env = C07.run_da(it["prog"])
@@ -355,7 +374,15 @@ def run(ctx, replay=None):
         "locks x regions, and in-place updates (setitem, mask setitem, ufunc out=, reduction out=, compute_chunk_sizes, _chunks setter) "
         "x reads before/after (keys, Frisky keys, graph, name, chunks, lowered) -- each also compared with the same program without the "
         "reads and scheduled by hand for the advertised keys; determinism is required exactly when dask.tokenize says the argument "
-        "objects tokenize deterministically and equally"
+        "objects tokenize deterministically and equally; PLUS array-valued parameters: every distribution of the random API (Generator / "
+        "RandomState / module level rotating with the seed) with NumPy-array parameters in every layout (1-d, column, full size, strided, "
+        "read-only, Fortran, 0-d), lists and NumPy scalars, multinomial pvals, choice population / p, and NumPy / list operands of 27 ordinary "
+        "API calls (x+A, A+x, np.add(A,x), where, clip, isin, digitize, histogram, take, x[A], concatenate, stack, append, insert, tensordot, "
+        "matmul, einsum, map_blocks / blockwise literals, full, full_like, pad, x[i]=A, average weights); PLUS configuration histories "
+        "(props_ext/c07_history.py): for every lazily read option (enumerated from the source) a program sensitive to it (tree reductions of "
+        "every family over many blocks, many-block rechunks, chunks='auto', aligned multi-operand nodes) is built and materialized under "
+        "configuration X and kept alive (or dropped), then rebuilt under Y: names, keys, chunks, dtype, optimized graph keys and values "
+        "must equal a build under Y from clean registries and in a fresh process"
     )
     ctx.assumptions = [
         "dask.tokenize of NumPy data, tuples, ints, dtypes and module-level functions is a pure function of the value (trusted; exercised by the subprocess runs)",
@@ -367,7 +394,12 @@ def run(ctx, replay=None):
     ]
     cfg_of = {}
     ext_ids = set()
-    if replay is not None:
+    light_ids = set()
+    hist_cases = []
+    if replay is not None and replay.get("case", replay).get("kind") == "cfg-history":
+        hist_cases = [{k: v for k, v in replay.get("case", replay).items() if k not in ("oracle", "differences")}]
+        progs = []
+    elif replay is not None:
         case = replay.get("case", replay)
         progs = [case["program"]] if "program" in case else []
         if progs and case.get("config"):
@@ -408,12 +440,20 @@ def run(ctx, replay=None):
         # ---- sources / creation / random / store / reads-and-in-place-updates (props_ext/c07_sources.py): the keyword grids
         #      are enumerated in EVERY run, random combinations on top
         ext = (S.source_programs(rng, apply_step, ctx.scale(10, 80)) + S.creation_programs(rng, apply_step, ctx.scale(4, 60))
-               + S.store_programs(rng, apply_step, ctx.scale(3, 30)) + S.inplace_programs(rng, apply_step, ctx.scale(8, 120)))
+               + S.store_programs(rng, apply_step, ctx.scale(3, 30)) + S.inplace_programs(rng, apply_step, ctx.scale(8, 120))
+               # array-valued parameters of EVERY distribution (NumPy arrays in every layout, lists, NumPy scalars) and NumPy /
+               # list operands of ordinary API calls
+               + S.array_param_programs(rng, apply_step, ctx.scale(4, 60), rotate=ctx.seed, quick=ctx.tier == "quick"))
         for label, prog in ext:
             ctx.count(label)
             ext_ids.add(len(progs))
+            if ctx.tier == "quick" and label[0] in ("create-array-param", "array-operand"):
+                light_ids.add(len(progs))  # two of the six in-process pickle round trips (rotating), see in_process
             progs.append(prog)
         ctx.notes["extension_programs"] = dict(collections.Counter(l[0] for l, _ in ext))
+        # ---- names / optimized graph keys after a HISTORY under another configuration (props_ext/c07_history.py): every
+        #      lazily read option (enumerated from the source) on programs sensitive to it, in every run
+        hist_cases = H.gen_cases(rng, ctx.scale(12, 200), rotate=ctx.seed)
 
     reg = N.Registry(ctx, 0)  # only for `isolated` (emptied registries); the constructor hook is NOT installed
     items = []
@@ -423,7 +463,7 @@ def run(ctx, replay=None):
         for pid, prog in enumerate(progs):
             cfg = cfg_of.get(pid, {})
             with dask.config.set(cfg):
-                rec = in_process(ctx, reg, pid, prog, stats, cfg)
+                rec = in_process(ctx, reg, pid, prog, stats, cfg, light=pid in light_ids)
             if rec is None:
                 continue
             kept.append(rec)
@@ -431,6 +471,17 @@ def run(ctx, replay=None):
             items.append({"id": pid, "prog": prog, "root": rec["root"], "pickle_before": rec["pickle_before"], "pickle_after": rec["pickle_after"], "cfg": bool(cfg),
                           # grid programs of the extension streams visit ONE of the two other hash seeds (alternating), everything else both
                           "one_seed": (pid % 2) if pid in ext_ids and ctx.tier == "quick" else None})
+        # ---- configuration histories: in-process part now (clean registries at the start of each case; nothing of the
+        #      programs above is needed alive any more), the fresh-process oracle rides along with the jobs below
+        hist_obs = {}
+        hist_seen = set()
+        for k, hc in enumerate(hist_cases):
+            o = H.check_case(ctx, hc, hist_seen)
+            if o is not None:
+                hid = 1_000_000 + k
+                hist_obs[hid] = (hc, o)
+                items.append({"id": hid, "hist": True, "prog": hc["program"], "config": hc.get("config") or {}, "one_seed": k % 2 if replay is None else None})
+        ctx.notes["cfg_history_cases"] = len(hist_cases)
         # ---- fresh processes (parallel), every program under two other hash seeds
         seeds = [1, 4242]
         nchunk = ctx.scale(3, 6)
@@ -445,6 +496,13 @@ def run(ctx, replay=None):
         by_id = {rec["id"]: rec for rec in kept}
         for seed, res in results:
             for sid, r in res.items():
+                if int(sid) in hist_obs:
+                    if "hist_built" in r:
+                        H.compare_fresh(ctx, hist_obs[int(sid)][0], hist_obs[int(sid)][1], r["hist_built"], seed, hist_seen)
+                    else:
+                        stats["child-exc"] += 1
+                        ctx.notes.setdefault("child_errors", []).append(str(r.get("error"))[:160])
+                    continue
                 cross_process(ctx, by_id[int(sid)], r, seed, stats)
     ctx.notes["c07"] = dict(stats)
     ctx.notes["programs"] = len(progs)
@@ -465,15 +523,18 @@ def fail(ctx, sig, rec, what, **kw):
     # same collection twice, a second build with the same name, and a pickle round trip give other values (and, when the
     # node is re-created by a rewrite, other inner graph keys).  One narrow signature for the whole family.
     d = kw.get("differences")
-    if isinstance(d, dict) and set(d) <= {"values", "graph_values", "graph_keys"} and "values" in d:
+    # (a NumPy-array parameter under a rewrite that leaves an EMPTY result — an empty slice — shows the re-created node
+    # in the inner graph keys only: there are no values left to differ)
+    if isinstance(d, dict) and set(d) <= {"values", "graph_values", "graph_keys"} and ("values" in d or S.has_array_param(rec["prog"])):
         fns = {st["fn"] for st in rec["prog"] if st["op"] == "create"}
         if fns & {"rng.choice", "rng.choice_a"}:
             what = f"[{sig}] {what}"
             sig = SIG_CHOICE
-        elif fns & set(S.ARRAY_ARG_FNS):
-            # sibling families (known): the root RNG is consumed again whenever a rewrite re-creates the node
+        elif fns & set(S.ARRAY_ARG_FNS) or S.has_array_param(rec["prog"]):
+            # sibling families (known): the root RNG is consumed again whenever a rewrite re-creates the node (a NumPy-array
+            # parameter / population is wrapped into a dask array by the random API, so it is the same family)
             what = f"[{sig}] {what}"
-            sig = SIG_CHOICE_ARRAY if "rs.choice_a" in fns else SIG_RANDOM_ARRAY
+            sig = SIG_CHOICE_ARRAY if ("rs.choice_a" in fns or S.has_array_param(rec["prog"]) == "choice") else SIG_RANDOM_ARRAY
     case = {"program": rec["prog"], "root": rec["root"]}
     if rec.get("config"):
         case["config"] = rec["config"]
@@ -518,7 +579,7 @@ def build_without_reads(prog):
         S.STRIP_PEEKS = False
 
 
-def in_process(ctx, reg, pid, prog, stats, cfg=None):
+def in_process(ctx, reg, pid, prog, stats, cfg=None, light=False):
     import cloudpickle
 
     exc = has_exception(prog)
@@ -643,29 +704,36 @@ def in_process(ctx, reg, pid, prog, stats, cfg=None):
     p_after = {"cloudpickle": cloudpickle.dumps(A)}
     if use_std:
         p_after["pickle"] = pickle.dumps(A)
-    for when, blobs in (("before", p_before), ("after", p_after)):
-        for lib, blob in blobs.items():
-            for isolated in ((False, True) if lib == "cloudpickle" else (False,)):
-                ctx.traces += 1
-                ctx.count(("roundtrip", when, lib, isolated))
-                try:
-                    if isolated:
-                        u = reg.isolated(lambda: pickle.loads(blob))
-                        oU = jsonable(reg.isolated(lambda: observe(u, deep=dp)))
-                    else:
-                        u = pickle.loads(blob)
-                        oU = jsonable(observe(u, deep=dp))
-                except Exception as e:
-                    import traceback
+    combos = [(when, lib, isolated) for when, blobs in (("before", p_before), ("after", p_after)) for lib in blobs
+              for isolated in ((False, True) if lib == "cloudpickle" else (False,))]
+    if light:
+        # grid programs of the array-parameter streams (quick tier): one round trip with emptied registries (a real
+        # reconstruction) and one other, rotating with the program index; cross-process pickles are all kept
+        iso = [c for c in combos if c[2]]
+        oth = [c for c in combos if not c[2]]
+        combos = [iso[pid % len(iso)], oth[pid % len(oth)]]
+    for when, lib, isolated in combos:
+        blob = (p_before if when == "before" else p_after)[lib]
+        ctx.traces += 1
+        ctx.count(("roundtrip", when, lib, isolated))
+        try:
+            if isolated:
+                u = reg.isolated(lambda: pickle.loads(blob))
+                oU = jsonable(reg.isolated(lambda: observe(u, deep=dp)))
+            else:
+                u = pickle.loads(blob)
+                oU = jsonable(observe(u, deep=dp))
+        except Exception as e:
+            import traceback
 
-                    fail(ctx, "pickle:roundtrip-raises", rec, f"unpickling/observing raises {type(e).__name__}: {str(e)[:160]}", when=when, lib=lib,
-                         emptied_registries=isolated, traceback=traceback.format_exc()[-1800:])
-                    return rec
-                d = diff(oA, oU, fields_p)
-                if d:
-                    fail(ctx, "pickle:in-process:" + ",".join(sorted(d)), rec, "a pickled and unpickled collection differs from the original",
-                         when=when, lib=lib, emptied_registries=isolated, differences=jsonable(d))
-                    return rec
+            fail(ctx, "pickle:roundtrip-raises", rec, f"unpickling/observing raises {type(e).__name__}: {str(e)[:160]}", when=when, lib=lib,
+                 emptied_registries=isolated, traceback=traceback.format_exc()[-1800:])
+            return rec
+        d = diff(oA, oU, fields_p)
+        if d:
+            fail(ctx, "pickle:in-process:" + ",".join(sorted(d)), rec, "a pickled and unpickled collection differs from the original",
+                 when=when, lib=lib, emptied_registries=isolated, differences=jsonable(d))
+            return rec
     stats["in-process-ok"] += 1
     return rec
 
